@@ -203,7 +203,8 @@ impl Model {
         enum E {
             NoDefault,
             Io(IoKind),
-            Conv,
+            /// decoding error; Some(kind) when the loader's error value happens to be an io::Error of that kind
+            Conv(Option<IoKind>),
         }
         let mut acc = E::NoDefault;
         for ext in ty.exts() {
@@ -214,10 +215,14 @@ impl Model {
                     self.loader_calls += 1;
                     match self.loader_plan.get(&k) {
                         Some(LoaderFault::Panic) => return Err(Stop::Panic),
-                        Some(LoaderFault::Err) => E::Conv,
+                        Some(LoaderFault::Err) => E::Conv(None),
                         None => {
-                            if bytes.starts_with(b"!bad") {
-                                E::Conv
+                            if bytes.starts_with(b"!bad-nf") {
+                                E::Conv(Some(IoKind::NotFound))
+                            } else if bytes.starts_with(b"!bad-io") {
+                                E::Conv(Some(IoKind::InvalidData))
+                            } else if bytes.starts_with(b"!bad") {
+                                E::Conv(None)
                             } else {
                                 return Ok(leaf_show(ext, &bytes));
                             }
@@ -227,7 +232,7 @@ impl Model {
             };
             acc = match (new, acc) {
                 (E::NoDefault, other) => other,
-                (E::Io(_), other @ E::Conv) => other,
+                (E::Io(_), other @ E::Conv(_)) => other,
                 (E::Io(IoKind::NotFound), other @ E::Io(_)) => other,
                 (this, _) => this,
             };
@@ -238,7 +243,8 @@ impl Model {
         Err(Stop::Err(match acc {
             E::NoDefault => "nodefault".to_string(),
             E::Io(k) => format!("io:{k:?}"),
-            E::Conv => "conv".to_string(),
+            E::Conv(None) => "conv".to_string(),
+            E::Conv(Some(k)) => format!("io:{k:?}"),
         }))
     }
     fn rec_load(&mut self, id: &str) -> Result<String, Stop> {
